@@ -197,14 +197,15 @@ def validate_schedule(G, raw, nodes, sup_name: str, prune: bool):
     return problems, stats, positions
 
 
-def ring_replay(G, raw, nodes, positions, sizes: Optional[Dict[str, int]] = None):
+def ring_replay(G, raw, nodes, positions, sizes: Optional[Dict[str, int]] = None, padded: bool = False):
     """C08 oracle B: replay the schedule against a model ring buffer per producer."""
     problems: List[tuple] = []
     stats = dict(ring_wrap=0, negative_seq_read=0, reads=0, writes=0)
     if sizes is None:
         sizes = {n: (max(v) if len(v) else 1) for n, v in G._buffer_sizes.items()}
-    pad = int(getattr(G, "_extra_padding", 0))
-    sizes = {n: s + pad for n, s in sizes.items()}
+    if not padded:
+        pad = int(getattr(G, "_extra_padding", 0))
+        sizes = {n: s + pad for n, s in sizes.items()}
     for e, pos in enumerate(positions):
         refw = ref_windows(raw, e, nodes)
         ring = {n: [None] * sizes[n] for n in sizes}
